@@ -277,6 +277,11 @@ func runC16(c *Ctx, faults bool) {
 					fmt.Fprintf(f, "edit by %s at op %d\n", u.name, i)
 					f.Close()
 					c.Probe("edited-held-file")
+					// sometimes the change is staged: uncommitted all the same
+					if t.Bool(1, 3, "stage-the-edit") {
+						w.Git(u.dir, "add", "--", p)
+						c.Probe("staged-edit-of-held-file")
+					}
 				} else if readOnly {
 					c.Violation("held-file-not-writable", "%s holds the lock on %s (granted, not released) but the file cannot be opened for writing: %v", u.name, p, err)
 					return
